@@ -9,7 +9,7 @@ import numpy as np
 from . import common
 from .common import make_rodded, set_int_params, make_unrodded
 
-MODULES = ['dassh.reactor'] + common.RR_MODULES + common.UR_MODULES + ['dassh.assembly']
+MODULES = ['dassh.reactor'] + common.RR_MODULES + common.UR_MODULES + ['dassh.assembly', 'dassh.table']
 PROPERTY = 'C14'
 FUNCTIONS = ['dassh.region_rodded:RoddedRegion.calculate_pressure_drop',
              'dassh.region_rodded:RoddedRegion.calculate_friction_pressure_drop',
@@ -21,7 +21,7 @@ FUNCTIONS = ['dassh.region_rodded:RoddedRegion.calculate_pressure_drop',
              'dassh.region_unrodded:SingleNodeHomogeneous.calculate_gravity_pressure_drop',
              'dassh.region_unrodded:SingleNodeHomogeneous.pressure_drop',
              'dassh.assembly:Assembly.pressure_drop', 'dassh.assembly:Assembly.update_region (accumulation)',
-             'dassh.assembly:Assembly._identify_active_region']
+             'dassh.assembly:Assembly._identify_active_region', 'dassh.table:PressureDropTable.make']
 ASSUMPTIONS = ['friction factor, velocity and density are the static values the region holds (positive atoms); that they '
                'are evaluated once at the bundle-average temperature is the documented design (constant within a sweep)',
                'step-size independence follows from additivity in dz (proved) and sum(dz) = L (C05)',
@@ -313,8 +313,110 @@ region_of_step.cname = 'Assembly._identify_active_region'
 region_of_step.run_kw = dict(pool_size=10, check_div=False)
 
 
+def pressure_table(S, cfg):
+    """the reported pressure drops through the real PressureDropTable.make on a reactor of atoms (printed cells are
+    read back through format tokens): total = the assembly's accumulated pressure drop, friction and gravity = the sums
+    over ALL regions, spacer grids = the bundle's, one column per region with that region's own total; the parts add up
+    to the total (all in MPa)"""
+    from dassh import table
+    from pvc import core
+    n_reg, grav = cfg['n_regions'], cfg.get('gravity', True)
+
+    class _Reg:
+        pass
+
+    class _A:
+        pass
+
+    class _R:
+        pass
+    regs = []
+    for j in range(n_reg):
+        g = _Reg()
+        g._pressure_drop = {'friction': S.pos(f'dp_f[{j}]', 1e3, 1e5), 'gravity': S.nonneg(f'dp_g[{j}]', 0.0, 1e4)}
+        regs.append(g)
+    rod = regs[cfg.get('rodded_idx', 0)]
+    rod._pressure_drop['spacer_grid'] = S.pos('dp_s', 1e2, 1e4) if cfg.get('grids', True) else 0.0
+    for g in regs:
+        g.pressure_drop = g._pressure_drop['friction'] + g._pressure_drop.get('spacer_grid', 0.0) + \
+            (g._pressure_drop['gravity'] if grav else 0.0)
+    a = _A()
+    a.name, a.loc, a.id = 'asm', (1, 2), 4
+    a.region, a.rodded, a.has_rodded = regs, rod, True
+    total = regs[0].pressure_drop
+    for g in regs[1:]:
+        total = total + g.pressure_drop
+    a.pressure_drop = total
+    r = _R()
+    r.assemblies = [a]
+    r._options = {'include_gravity': grav}
+    if not grav:
+        for g in regs:
+            g._pressure_drop['gravity'] = 0.0 * g._pressure_drop['friction']
+    t = table.PressureDropTable(n_reg)
+    t.make(r)
+    rows = [ln for ln in t._table.splitlines() if ln.strip() and ln.split()[0].isdigit()]
+    S.holds('dptable.one_row_per_assembly', len(rows) == 1)
+    if len(rows) != 1:
+        return
+    cells = rows[0].replace('( ', '(').replace(', ', ',').split()
+
+    def value(c):
+        if S.mode == 'sym':
+            return core.parse_token(c)
+        try:
+            return float(c)
+        except ValueError:
+            return None
+    vals = [value(c) for c in cells[3:]]
+    S.holds('dptable.row_shape', len(vals) == 4 + n_reg and vals[0] is not None and vals[1] is not None
+            and all(v is not None for v in vals[4:]))
+    if len(vals) != 4 + n_reg or vals[0] is None or vals[1] is None or any(v is None for v in vals[4:]):
+        return
+    fr = regs[0]._pressure_drop['friction']
+    gr = regs[0]._pressure_drop['gravity']
+    for g in regs[1:]:
+        fr, gr = fr + g._pressure_drop['friction'], gr + g._pressure_drop['gravity']
+    sp = rod._pressure_drop['spacer_grid']
+    S.holds('dptable.spacer_printed_iff_grids', (vals[2] is not None) == bool(cfg.get('grids', True)))
+    S.holds('dptable.gravity_printed_iff_option', (vals[3] is not None) == grav)
+    if S.mode == 'sym':
+        S.eq('dptable.total_is_assembly_total', vals[0] * 1e6, a.pressure_drop)
+        S.eq('dptable.friction_over_all_regions', vals[1] * 1e6, fr)
+        if vals[2] is not None:
+            S.eq('dptable.spacer_grids_of_the_bundle', vals[2] * 1e6, sp)
+        if vals[3] is not None:
+            S.eq('dptable.gravity_over_all_regions', vals[3] * 1e6, gr)
+        for j in range(n_reg):
+            S.eq(f'dptable.region_column[{j}]', vals[4 + j] * 1e6, regs[j].pressure_drop)
+        parts = vals[1] + (vals[2] if vals[2] is not None else 0) + (vals[3] if vals[3] is not None else 0)
+        S.eq('dptable.parts_add_up_to_total', parts, vals[0])
+        acc = vals[4]
+        for j in range(1, n_reg):
+            acc = acc + vals[4 + j]
+        S.eq('dptable.regions_add_up_to_total', acc, vals[0])
+        S.eq('canary.dptable_total_is_first_region', vals[0] * 1e6, regs[0].pressure_drop, canary=(n_reg > 1))
+    else:
+        rel = lambda x, y: abs(x * 1e6 - y) / max(abs(y), 1e-9)     # noqa: E731  (cells carry five significant digits)
+        S.le('dptable.total_is_assembly_total', rel(vals[0], a.pressure_drop), 6e-5)
+        S.le('dptable.friction_over_all_regions', rel(vals[1], fr), 6e-5)
+        if vals[2] is not None:
+            S.le('dptable.spacer_grids_of_the_bundle', rel(vals[2], sp), 6e-5)
+        if vals[3] is not None:
+            S.le('dptable.gravity_over_all_regions', rel(vals[3], gr), 6e-5)
+        for j in range(n_reg):
+            S.le(f'dptable.region_column[{j}]', rel(vals[4 + j], regs[j].pressure_drop), 6e-5)
+
+
+pressure_table.cname = 'PressureDropTable.make'
+pressure_table.run_kw = dict(pool_size=8, check_div=False)
+
+
 def configs(tier):
-    out = [(region_of_step, dict(n_regions=2)), (region_of_step, dict(n_regions=3)),
+    out = [(pressure_table, dict(n_regions=1)), (pressure_table, dict(n_regions=3, rodded_idx=1)),
+           (pressure_table, dict(n_regions=2, rodded_idx=0, gravity=False)),
+           (pressure_table, dict(n_regions=2, rodded_idx=1, grids=False)),
+           (region_of_step, dict(n_regions=2)), (region_of_step, dict(n_regions=3)),
            (rodded, dict(gravity=True)), (rodded, dict(gravity=False)),
            (grid, dict(where='first')), (grid, dict(where='second')), (grid, dict(where='on_plane')),
            (grid, dict(where='any')), (grid, dict(where='near_plane')),
